@@ -493,6 +493,63 @@ pub fn timing_line(toks: &[&str]) -> String {
     format!("first=oack interval={} transmissions={}", interval, stamps.len())
 }
 
+/// a download that the client aborts with an ERROR of a given code after the first DATA: what still arrives
+/// afterwards, within one acknowledged retransmission interval plus slack (real time)
+/// `errstop <root> <flags> <fs> <rrq-hex> <code>`
+pub fn errstop_line(toks: &[&str]) -> String {
+    if toks.len() != 6 {
+        return "bad-op".into();
+    }
+    let (Some(root_b), Some(dgram), Some(code)) = (unhex(toks[1]), unhex(toks[4]), toks[5].parse::<u16>().ok().and_then(err_of_index)) else {
+        return "bad-op".into();
+    };
+    let root = PathBuf::from(String::from_utf8(root_b).unwrap());
+    let fl = parse_flags(toks[2]);
+    let port = server_port(&root, toks[2]);
+    if !reset_sandbox(&root, &fl, toks[3]) {
+        return "bad-op".into();
+    }
+    let listener: SocketAddr = format!("127.0.0.1:{}", port).parse().unwrap();
+    let sock = UdpSocket::bind("127.0.0.1:0").unwrap();
+    sock.send_to(&dgram, listener).unwrap();
+    let mut tmo = 5u64;
+    let mut from = None;
+    // OACK (if any), then DATA 1
+    for _ in 0..3 {
+        match recv_packet(&sock, Duration::from_millis(1500)) {
+            Some((Ok(Packet::Oack(opts)), f, _)) => {
+                for o in &opts {
+                    if o.option == tftpd::OptionType::Timeout {
+                        tmo = o.value as u64;
+                    }
+                }
+                sock.send_to(&Packet::Ack(0).serialize().unwrap(), f).unwrap();
+            }
+            Some((Ok(Packet::Data { .. }), f, _)) => {
+                from = Some(f);
+                break;
+            }
+            _ => break,
+        }
+    }
+    let Some(from) = from else { return "first=other".into() };
+    // drain the rest of the first burst, then abort
+    while recv_packet(&sock, ms(15, 200)).is_some() {}
+    let e = Packet::Error { code, msg: "stop".into() };
+    sock.send_to(&e.serialize().unwrap(), from).unwrap();
+    let mut after = 0usize;
+    let deadline = std::time::Instant::now() + Duration::from_millis(tmo * 1000 + 600);
+    while std::time::Instant::now() < deadline {
+        if let Some((p, _, _)) = recv_packet(&sock, Duration::from_millis(50)) {
+            // the listener's own ERROR in answer to a stray ERROR is not the transfer going on
+            if !matches!(p, Ok(Packet::Error { .. })) {
+                after += 1;
+            }
+        }
+    }
+    format!("first=data after={}", after)
+}
+
 /// a batch of hostile datagrams from several sources, then a probe request
 pub fn storm_line(toks: &[&str]) -> String {
     if toks.len() < 5 {
